@@ -5,11 +5,24 @@ What the kernel postconditions give: one Metropolis step replaces two hyperedges
 g1 and g2 duplicate-free, and every node occurring in g1, g2 together exactly as often as in f1, f2 together - so the step preserves
 both sizes and every node's degree (at every size when f1, f2 have the same size: the `detailed` variant).
 """
-from ..pyvc.engine import Contract
+from ..pyvc.engine import Contract, Layout
 
 CM = "hypergraphx/generation/configuration_model.py"
 
+SAMPLER = "hypergraphx/generation/hy_mmsbm_sampling.py"
+# only the pure kernel of the sampler is verified: no field of the object is read except the random generator
+LAYOUTS = [Layout("HyMMSBMSampler", {})]
+
 CONTRACTS = [
+    Contract("HyMMSBMSampler._pairwise_reshuffle", SAMPLER, ["HyMMSBMSampler", "_pairwise_reshuffle"], self_cls="HyMMSBMSampler",
+             properties=["C16"], params={"hye1": "Set[Int]", "hye2": "Set[Int]"}, result="Pair[Set[Int],Set[Int]]", pure=True,
+             ensures={
+                 # for every outcome of rng.choice: both sizes, the union and the intersection are preserved, hence every node's degree
+                 "size1": "card(fst(result)) == card(hye1)",
+                 "size2": "card(snd(result)) == card(hye2)",
+                 "union": "all((x in fst(result) or x in snd(result)) == (x in hye1 or x in hye2) for x in Node)",
+                 "inter": "all((x in fst(result) and x in snd(result)) == (x in hye1 and x in hye2) for x in Node)",
+             }),
     Contract("_cm_MCMC.__pairwise_reshuffle", CM, ["_cm_MCMC", "__pairwise_reshuffle"], properties=["C13"],
              params={"f1": "NodeSeq", "f2": "NodeSeq"}, result="Pair[Bag[Int],Bag[Int]]", pure=True,
              locals={"g1": "Bag[Int]", "g2": "Bag[Int]", "f": "Bag[Int]"},
